@@ -34,10 +34,11 @@ pub const fn bitand(&self, rhs: &Self) -> (ret__: Self)
 //@@ end
 //@@ fn src/const_choice.rs | impl<T> ConstCtOption<T> | and_choice | body | props C06 C11
 impl<T> ConstCtOption<T> {
-pub const fn and_choice(mut self, is_some: ConstChoice) -> (ret__: Self)
+pub const fn and_choice(self, is_some: ConstChoice) -> (ret__: Self)
 {
-        self.is_some = self.is_some.and(is_some);
-        self
+let mut self__ = self;
+        self__.is_some = self__.is_some.and(is_some);
+        self__
     }
 }
 //@@ end
